@@ -281,6 +281,16 @@ def _truncation(prog, rep):
             guarded = any(_raises_size_error(st.body) and any(k in src(st.test) for k in ("len(", ".size", ".shape", ".ndim")) and "!=" in src(st.test) for st in first_if)
             # the size test must compare with the left operand's size
             compares_left = any(("left" in src(st.test) or "rows, cols" in src(st.test) or "(rows, cols)" in src(st.test)) for st in first_if if "!=" in src(st.test) and ".ndim" not in src(st.test))
+            if not (guarded and compares_left):
+                # the check may be hoisted in front of the ladder (one test for all sized operand kinds)
+                from ..astutil import preceding_exit_guards as _peg
+                pre = [t_ for t_, _pol in _peg(node) if any(k in src(t_) for k in ("len(", ".size", ".shape")) and "!=" in src(t_) and ".ndim" not in src(t_)]
+                if pre:
+                    if any(("left" in src(t_) or "rows, cols" in src(t_)) and "right" in src(t_) for t_ in pre):
+                        rep.ob("R11.2", f"{fi.name}[{kinds[18:-1]}]", True, f"sizes are compared before the operand-kind arms (`{src(pre[0])[:50]}`) and a mismatch leaves the function", loc=f"{fi.module.rel}:{node.lineno}", detail="arm", robust=True)
+                    else:
+                        rep.undecided(f"{fi.name}[{kinds[18:-1]}]: a size test in front of the ladder (`{src(pre[0])[:50]}`) is not in the form this rule relates to the two operands")
+                    continue
             one = _one_sided_size_test(body) if not (guarded and compares_left) else None
             if one is not None:
                 rep.ob("R11.2", f"{fi.name}[{kinds[18:-1]}]", False, f"the size check is `{src(one.test)[:50]}`: operands whose sizes differ the other way are paired element by element (silent truncation)", loc=f"{fi.module.rel}:{one.lineno}", detail="arm", robust=True)
